@@ -159,6 +159,29 @@ func payloadFor(kind, who int, fee string) (payload, typ, rcpt string) {
 	return fmt.Sprintf(`{"type":"%s","recipient":"%s","fee":"%s"}`, typ, rcpt, fee), typ, rcpt
 }
 
+// genBadPayload: payloads that cannot be a well-formed command whatever the decoder does with the rest: a top-level value
+// that is no object, or an object in which at least one of type / recipient / fee is absent, null or not a string.
+func genBadPayload(t *rapid.T) string {
+	if rapid.IntRange(0, 3).Draw(t, "toplevel") == 0 {
+		return rapid.SampledFrom([]string{`null`, `[]`, `[null]`, `0`, `"send_to_hub"`, `true`, ``, ` `, `{`, `[{"type":"send_to_hub"}]`, ` null `}).Draw(t, "top")
+	}
+	good := map[string]string{"type": `"send_to_hub"`, "recipient": `"` + hubRecipients[0] + `"`, "fee": `"0"`}
+	keys := rapid.Permutation([]string{"type", "recipient", "fee"}).Draw(t, "order")
+	spoil := rapid.IntRange(0, 2).Draw(t, "spoil")
+	var parts []string
+	for i, k := range keys {
+		v := good[k]
+		if i == spoil || rapid.IntRange(0, 3).Draw(t, "also") == 0 {
+			v = rapid.SampledFrom([]string{"", "null", "0", "{}", "[]", "false"}).Draw(t, "spoiled")
+		}
+		if v == "" {
+			continue
+		}
+		parts = append(parts, `"`+k+`":`+v)
+	}
+	return "{" + strings.Join(parts, ",") + "}"
+}
+
 func genMainCase(t *rapid.T) interface{} {
 	c := &MainCase{}
 	n := rapid.IntRange(2, 12).Draw(t, "nblocks")
@@ -174,6 +197,10 @@ func genMainCase(t *rapid.T) interface{} {
 				pl, _, _ := payloadFor(rapid.IntRange(0, 2).Draw(t, "dkind"), rapid.IntRange(0, 2).Draw(t, "who"), fee)
 				b.Txs = append(b.Txs, connkit.MTx{Kind: "deposit", Payload: pl, From: rapid.IntRange(1, 3).Draw(t, "from"), Value: val.String(), Coin: rapid.SampledFrom([]int{1, 10}).Draw(t, "coin")})
 			case 5:
+				if rapid.IntRange(0, 1).Draw(t, "grammar") == 0 {
+					b.Txs = append(b.Txs, connkit.MTx{Kind: "bad-deposit", Payload: genBadPayload(t)})
+					break
+				}
 				b.Txs = append(b.Txs, connkit.MTx{Kind: "bad-deposit", Payload: rapid.SampledFrom([]string{`{"type":"send_to_ethereum","recipient":"0x58BD","fee":"1"}`, `not json`, `{"type":"teleport","recipient":"x","fee":"1"}`, `{"type":"send_to_bsc","recipient":"0x58BD8047F441B9D511aEE9c581aEb1caB4FE0b6d","fee":"-1"}`,
 					// payloads that parse but leave fields out (a decoder must not fill them from anything seen before)
 					`{"fee":"0"}`, `{}`, `null`, `{"recipient":"0x58BD8047F441B9D511aEE9c581aEb1caB4FE0b6d"}`, `{"type":"send_to_hub","fee":"0"}`}).Draw(t, "bad")})
